@@ -46,6 +46,8 @@ func Exec(w []string) (answer string, mine bool) {
 	}
 	switch w[0] {
 	case "disp", "disparms", "dispctx", "dispsites", "dispkinds", "dispfact", "beh", "e2e":
+	case "seq", "seqinv":
+		return seqExec(w), true
 	default:
 		return "", false
 	}
@@ -101,6 +103,14 @@ func Gen(r *vh.Rng, tier string, emit func(op, impl, class string, nontrivial bo
 		emit("dispsites", "extract-failed:"+strings.ReplaceAll(err.Error(), " ", "_"), "disp/extract", true)
 		return
 	}
+	// 0. the sequence tier (seq.go) runs in child processes of its own, concurrently with the rest
+	seqR := vh.NewRng(r.U64())
+	var seqRes []SeqResult
+	seqDone := make(chan struct{})
+	go func() {
+		defer close(seqDone)
+		seqRes = CollectSeq(seqR, tier)
+	}()
 	// 1. the extracted table, cell by cell
 	emit("dispsites", t.SitesLine(), "disp/sites", true)
 	emit("dispkinds", t.KindsLine(), "disp/kinds", true)
@@ -203,6 +213,8 @@ func Gen(r *vh.Rng, tier string, emit func(op, impl, class string, nontrivial bo
 		}
 		emit("e2e "+n, a, "e2e/"+strings.SplitN(a, ":", 2)[0], true)
 	}
+	<-seqDone
+	EmitSeq(seqRes, emit)
 	sort.Strings(Notes)
 	_ = fmt.Sprint
 }
